@@ -1,7 +1,7 @@
 (* Main.v — single entry point of the extracted model: one request tree in, one
    response tree out.  The OCaml driver only parses and prints trees. *)
 From Coq Require Import String List.
-From Prov Require Import Str Sexp Tables Nsm Scope Values Record World Jtree Json JsonSpec Provn ProvnSpec XmlSpec IO Dot Xml XmlLabel XmlRec XmlRead XmlScope Rdf Rdfq RdfVal Dotg DotLabel Interp.
+From Prov Require Import Str Sexp Tables Nsm Scope Values Record World Jtree Json JsonSpec Provn ProvnSpec XmlSpec IO IODispatch Dot Xml XmlLabel XmlRec XmlRead XmlScope Rdf Rdfq RdfVal Dotg DotLabel Interp.
 Import ListNotations.
 Open Scope string_scope.
 
@@ -248,6 +248,32 @@ Definition run (req : sexp) : sexp :=
   | L [A "fancylabel"; A l; A i] => L [A (fancy_label l i); A (if html_label_ok (fancy_label l i) then "true" else "false")]
   (* the acceptor alone, on a label text of the implementation *)
   | L [A "htmlok"; A s] => A (if html_label_ok s then "true" else "false")
+  (* the text / bytes dispatch: for every format x destination kind x source kind, whether a str or a bytes is written
+     and whether the format's parser is handed text or bytes (IODispatch, instantiated at the one-point types: only the
+     branch taken is observed; the payload law is what C16_same_parser_input proves) *)
+  | L [A "iodispatch"] =>
+      let enc := fun (_ : unit) => tt in
+      let dec := fun (_ : unit) => Some tt in
+      let fname (f : fmt) := match f with FJson => "json" | FXml => "xml" | FRdf => "rdf" | FProvn => "provn" end in
+      let dname (d : dest) := match d with DString => "string" | DTextStream => "text" | DBinaryStream => "binary" | DPath => "path" end in
+      let sname (x : src) := match x with SContentStr => "content-str" | SContentBytes => "content-bytes" | STextStream => "text-stream"
+                                        | SBinaryStream => "binary-stream" | SPath => "path" end in
+      L (flat_map (fun f => flat_map (fun d => map (fun x =>
+           match artefact unit unit enc dec f d tt with
+           | Some a =>
+               match to_source unit unit enc dec x a with
+               | Some c =>
+                   match deserialize_input unit unit enc dec dec f c with
+                   | Some pi => L [A (fname f); A (dname d); A (sname x);
+                                   A (match a with DText _ _ _ => "str" | DBytes _ _ _ => "bytes" end);
+                                   A (match pi with PText _ _ _ => "text" | PBytes _ _ _ => "bytes" end)]
+                   | None => L [A (fname f); A (dname d); A (sname x); A "-"; A "none"]
+                   end
+               | None => A "none"
+               end
+           | None => A "none"
+           end) [SContentStr; SContentBytes; STextStream; SBinaryStream; SPath])
+           [DString; DTextStream; DBinaryStream; DPath]) [FJson; FXml; FRdf])
   | L [A "destpath"; A name] =>
       match dest_path name with Some p => L [A "some"; A p] | None => L [A "none"] end
   | L [A "provnspec"; A text] =>
